@@ -135,7 +135,9 @@ fn random(src: &mut Src, obs: &mut Obs, cfg: &GenCfg) -> Res {
 }
 
 fn random_plain(src: &mut Src, obs: &mut Obs) -> Res {
-    random(src, obs, &GenCfg::plain())
+    let mut cfg = GenCfg::plain();
+    cfg.regex = true;
+    random(src, obs, &cfg)
 }
 
 fn random_special(src: &mut Src, obs: &mut Obs) -> Res {
